@@ -156,7 +156,7 @@ where
       | some n =>
         if n < 0 then
           if Gen.h2ContentLengthGuard then (.error (.badstatus h.status), s', reads)
-          else (.error .valueError, s', reads ++ [.recv 0])   -- socket.recv(-n): "negative buffersize"
+          else (.error .valueError, s', reads)   -- socket.recv(-n): ValueError "negative buffersize in recv"
         else
           let size := if Gen.h2BodyReadCap = 0 then n.toNat else min n.toNat Gen.h2BodyReadCap
           match rawRecv s' size with
